@@ -55,6 +55,12 @@ def _invalid_data(kind, spec, cfg, data):
     elif kind == "nan-y":
         if y is None or y.dtype.kind != "f":
             return None
+        if data.kind in ("clf", "clf2"):
+            # a NaN *class label* is not a controllable input: CPython >= 3.10
+            # hashes a NaN by the address of its object, so ``set(y)`` /
+            # ``sorted(set(y))`` inside the library iterate in an order no seam
+            # owns (found by the determinism self-test, DESIGN 12.2)
+            return None
         y[n // 2] = numpy.nan
     elif kind == "rows-mismatch":
         if y is None:
